@@ -115,16 +115,44 @@ def run_contract_paths(chk: Check, tier: str, rnd, work, obs):
             kept.append((ctx.info.sig, ex))
             yield ex
 
+    # a path that extends a (possibly sliced) setUp or frontier state carries ALL constraints of that state: the
+    # sliced subset only decides what the branching solver sees (SolverQuery!QueryHasAllConditions)
+    from halmos.sevm import Path
+
+    orig_extend = Path.extend_path
+    dropped = []
+
+    def extend_path(self, parent):
+        orig_extend(self, parent)
+        have = {c.get_id() for c in self.conditions}
+        missing = [c for c in parent.conditions if c.get_id() not in have]
+        chk.count("path_extensions_checked")
+        if missing:
+            dropped.append((len(parent.conditions), parent.sliced is not None, [str(c)[:200] for c in missing[:3]]))
+
+    Path.extend_path = extend_path
     hmain.run_message = keep
     try:
         for _ in range(2 if tier == "quick" else 20):
             c, metas = testgen.gen_test_contract(rnd, ntests=3)
             run_contract(c)
+        # a setUp state with a constraint that is NOT about the state (on a symbolic setUp argument): sliced away for the
+        # branching solver, but still part of every test path
+        from harness.artifacts import Contract, Fn, arg, panic, revert_plain
+
+        su = [("PUSH", 1000)] + arg(0) + ["GT", ("PUSHL", "ok"), "JUMPI"] + revert_plain() + [("LABEL", "ok"), ("PUSH", 1), ("PUSH", 0), "SSTORE", "STOP"]
+        tb = arg(0) + [("PUSH", 7), "EQ", ("PUSHL", "bad"), "JUMPI", "STOP", ("LABEL", "bad")] + panic(1)
+        run_contract(Contract("SliceT", [Fn("setUpSymbolic(uint256)", su), Fn("check_seven(uint256)", tb)]))
         for _ in range(2 if tier == "quick" else 20):
             m = invgen.gen_machine(rnd, depth=rnd.choice([1, 2]))
             run_contract(m.test, others=[m.target], cli=("--invariant-depth", str(m.depth)))
     finally:
         hmain.run_message = orig
+        Path.extend_path = orig_extend
+    if dropped:
+        n, sliced, ex3 = dropped[0]
+        chk.violation("extend-drops-condition", f"{len(dropped)} path(s) extending a {'sliced ' if sliced else ''}state of {n} constraints do not carry all of them "
+                      f"(the query of such a path is weaker than the path's history), e.g. missing: {ex3}", {"examples": dropped[:5]})
     for idx, (sig, ex) in enumerate(kept):
         conds = list(ex.path.conditions)
         syms = set()
